@@ -27,11 +27,12 @@ Walk(r, i, m, ok) ==
   IF i > Len(r.steps) THEN ok
   ELSE LET s == r.steps[i] IN
        IF s.a = "fwd" THEN Walk(r, i + 1, [m EXCEPT !.f = @ + 1, !.c1 = Append(@, m.f + 1)], ok)
+       ELSE IF s.a = "hangup" THEN Walk(r, i + 1, [m EXCEPT !.alive = FALSE, !.c2 = <<>>], ok)     \* FrontendHangup!HangUp
        ELSE
        LET isRelay == s.a = "relay"
            p == IF isRelay THEN RunPoll(m.relay, m.c1, Begin(Len(m.relay), s.h), <<>>)
                            ELSE RunPoll(m.recv, m.c2, Begin(Len(m.recv), s.h), <<>>)
-           m2 == IF isRelay THEN [m EXCEPT !.relay = p[1], !.c1 = p[2], !.c2 = @ \o p[4]]
+           m2 == IF isRelay THEN [m EXCEPT !.relay = p[1], !.c1 = p[2], !.c2 = IF m.alive THEN @ \o p[4] ELSE <<>>]   \* RelayTake / RelayTakeDead
                             ELSE [m EXCEPT !.recv = p[1], !.c2 = p[2]]
            n == s.nodes
            \* messages consumed so far, from the observed channel lengths
@@ -56,11 +57,12 @@ MonotoneObs(r, who) ==
 Check(r) ==
   /\ Report(r.stream = SubSeq(r.prod, 3, Len(r.prod)), r.id, "stream-differs-from-table", 0)
   /\ IF r.mode = "scheduled"
-     THEN Walk(r, 1, [f |-> 0, relay |-> Consts, c1 |-> <<>>, recv |-> Consts, c2 |-> <<>>], TRUE)
+     THEN Walk(r, 1, [f |-> 0, relay |-> Consts, c1 |-> <<>>, recv |-> Consts, c2 |-> <<>>, alive |-> TRUE], TRUE)
      ELSE CheckThreads(r)
   /\ Report(MonotoneObs(r, "relay") /\ MonotoneObs(r, "recv"), r.id, "table-shrank", 0)
   /\ Report(r.final_relay = r.prod, r.id, "relay-differs-at-quiescence", 0)
-  /\ Report(r.final_recv = r.prod, r.id, "receiver-differs-at-quiescence", 0)
+  \* the last store may have been dropped in the middle of the run (hang-up): the relay's duties are unchanged, the dropped store has none
+  /\ Report(r.hung \/ r.final_recv = r.prod, r.id, "receiver-differs-at-quiescence", 0)
 
 Init2 == l = 1
 Next2 == /\ l <= Len(Rec)
